@@ -1,9 +1,357 @@
-/- WS.Driver.OpsH1 — op group H1 (see AGENTS_GUIDE.md). Return `none` for ops not handled here. -/
+/-
+  WS.Driver.OpsH1 — op group H1: URL / address loop / dispatcher (C18), no_proxy / proxy
+  decision / tunnel / connect (C19), cookie jar (C20).
+
+  Argument conventions (beyond WS.Driver.Util): text = hex of UTF-8, `-` or `~` = empty;
+  `!` = None; lists = items joined by `,` (whole argument `-` = empty list); environment =
+  `NAME=hexvalue` items joined by `,`.  `unmodelled` = the input lies outside the alphabet on
+  which the model mirrors CPython (see the headers of WS.Model.{Url,NoProxy,Proxy,Cookie}).
+-/
 import WS.Driver.Util
+import WS.Spec.Rfc3986
+import WS.Spec.NoProxy
+import WS.Spec.CookieSpec
+import WS.Model.Url
+import WS.Model.OpenSocket
+import WS.Model.NoProxy
+import WS.Model.Proxy
+import WS.Model.Cookie
 namespace WS.Driver.H1
-open WS WS.Driver
+open WS WS.Driver WS.Py WS.Net
+
+/-! ### argument parsing / rendering -/
+
+def pStr (s : String) : Option Str :=
+  if s == "-" || s == "~" then some [] else (parseStr s).map (·.toList)
+
+def pOptStr (s : String) : Option (Option Str) :=
+  if s == "!" then some none else (pStr s).map some
+
+def pList (s : String) : Option (List Str) :=
+  if s == "-" then some [] else (s.splitOn ",").mapM pStr
+
+def pEnv (s : String) : Option (List (String × Str)) :=
+  if s == "-" then some []
+  else (s.splitOn ",").mapM fun kv =>
+    match kv.splitOn "=" with
+    | [k, v] => (pStr v).map fun v => (k, v)
+    | _ => none
+
+def pNat (s : String) : Option Nat := s.toNat?
+def pBool (s : String) : Option Bool := if s == "1" then some true else if s == "0" then some false else none
+
+def sOut (s : Str) : String := strOut (String.ofList s)
+
+def exnOut {α : Type} (f : α → String) : Except Exn α → String
+  | .ok a => f a
+  | .error e => e.toStr
+
+/-- printable ASCII without blank -/
+def plainAscii (s : Str) : Bool := s.all fun c => 33 ≤ c.toNat && c.toNat ≤ 126
+
+/-! ### C18 -/
+
+def urlAlphabet (c : Char) : Bool :=
+  isAlphaC c || isDigitC c || "-._~:/?#[]@!$&'()*+,;=%".toList.contains c
+
+def targetOut (t : Target) : String :=
+  s!"{sOut t.host} {t.port} {sOut t.resource} {b2s t.secure}"
+
+def mParseUrl (u : Str) : String :=
+  if !u.all urlAlphabet then "unmodelled"
+  else exnOut (fun t => "ok " ++ targetOut t) (Model.Url.parseUrl Model.Url.bracketOk u)
+
+def sParseUrl (u : Str) : String :=
+  match Spec.Url.classify Model.Url.bracketOk u with
+  | .target t => "target " ++ targetOut t
+  | .refuse => "refuse"
+  | .unconstrained => "unconstrained"
+
+def pOutcome (s : String) : Option Outcome :=
+  if s == "a" then some .accept
+  else if s == "r" then some .refused
+  else if s == "u" then some .unreachable
+  else if s.startsWith "o" then ((s.drop 1).toString.toNat?).map .other
+  else none
+
+def pOutcomes (s : String) : Option (List Outcome) :=
+  if s == "-" then some [] else (s.splitOn ",").mapM pOutcome
+
+def outcomeOut : Outcome → String
+  | .accept => "a" | .refused => "r" | .unreachable => "u" | .other c => s!"o{c}"
+
+def evOut : Ev → String
+  | .create i => s!"c{i}"
+  | .settimeout i t => s!"t{i}:{t}"
+  | .setsockopt i o => s!"o{i}:{o}"
+  | .connect i => s!"n{i}"
+  | .close i => s!"x{i}"
+
+def evsOut (l : List String) : String := if l.isEmpty then "-" else ",".intercalate l
+
+def pOpts (s : String) : Option (List String) :=
+  (pList s).map fun l => l.map String.ofList
+
+def mOpenSocket (timeout : Nat) (user : List String) (outs : List Outcome) : String :=
+  let (r, evs) := Model.OpenSocket.openSocket timeout user outs
+  let rs := match r with
+    | .ok i => s!"ok:{i}"
+    | .raised o => s!"raise:{outcomeOut o}"
+    | .internal k => s!"INTERNAL({k})"
+  rs ++ " " ++ evsOut (evs.map evOut)
+
+def sDial (timeout : Nat) (user : List String) (outs : List Outcome) : String :=
+  let (r, evs) := Spec.Url.dialSpec timeout Gen.defaultSockOpts user outs
+  let rs := match r with
+    | .connected i => s!"ok:{i}"
+    | .failed o => s!"raise:{outcomeOut o}"
+  rs ++ " " ++ evsOut (evs.map evOut)
+
+def dispOut : Model.OpenSocket.DispatcherKind → String
+  | .wrapped => "wrapped" | .ssl t => s!"ssl:{t}" | .plain t => s!"plain:{t}"
+
+/-! ### C19 -/
+
+def maskModelled (m : Str) : Bool :=
+  (m.all isDigitC && m.length ≤ 4000) ||
+    m.any (fun c => isAlphaC c || c == '.' || c == ':' || c == '*')
+
+/-- every call of `inet_aton` / `int` the code can make on these arguments is modelled. -/
+def npModelled (host : Str) (list : List Str) : Bool :=
+  plainAscii host && inetModelled host &&
+  list.all fun e =>
+    plainAscii e &&
+    match splitOn '/' e with
+    | [a, m] => inetModelled a && maskModelled m
+    | _ => true
+
+def envModelled (env : List (String × Str)) : Bool := env.all fun kv => kv.2.all fun c => 32 ≤ c.toNat && c.toNat ≤ 126
+
+def mNoProxy (host : Str) (list : List Str) (env : List (String × Str)) : String :=
+  let eff := Model.NoProxy.effectiveList list env
+  if !(npModelled host eff && envModelled env) then "unmodelled"
+  else exnOut b2s (Model.NoProxy.isNoProxyHost host list env)
+
+def sNoProxy (host : Str) (list : List Str) (env : List (String × Str)) : String :=
+  b2s (Spec.NoProxy.exempt host (Spec.NoProxy.noProxyList list env))
+
+def pAuth (s : String) : Option (Option (Str × Str)) :=
+  if s == "!" then some none
+  else match s.splitOn ":" with
+    | [u, p] => match pStr u, pStr p with
+      | some u, some p => some (some (u, p))
+      | _, _ => none
+    | _ => none
+
+def authOut : Option (Str × Str) → String
+  | none => "!"
+  | some (u, p) => s!"{sOut u}:{sOut p}"
+
+def choiceOut (c : Model.Proxy.Choice) : String :=
+  let h := match c.host with | none => "!" | some h => sOut h
+  let p := match c.port with | none => "!" | some p => toString p
+  s!"{h} {p} {authOut c.auth}"
+
+/-- the environment's proxy URL is inside the modelled alphabet (no "%" to unquote). -/
+def proxyEnvModelled (secure : Bool) (env : List (String × Str)) : Bool :=
+  let v := Spec.NoProxy.envProxy secure env
+  v.all urlAlphabet && !v.contains '%'
+
+def mProxyInfo (host : Str) (secure : Bool) (oh : Str) (op : Nat) (oa : Option (Str × Str))
+    (onp : List Str) (env : List (String × Str)) : String :=
+  let p := Model.Proxy.proxyInfo oh op oa onp
+  let eff := Model.NoProxy.effectiveList p.noProxy env
+  if !(npModelled host eff && envModelled env && proxyEnvModelled secure env) then "unmodelled"
+  else exnOut choiceOut (Model.Proxy.getProxyInfo Model.Url.bracketOk host secure p env)
+
+def sDecision (host : Str) (secure : Bool) (oh : Str) (op : Nat) (oa : Option (Str × Str))
+    (onp : List Str) (env : List (String × Str)) : String :=
+  match Spec.NoProxy.decision host secure oh op oa onp env with
+  | .direct => "direct"
+  | .viaOption h p a => s!"option {sOut h} {p} {authOut a}"
+  | .viaEnv v => s!"env {sOut v}"
+  | .configError => "configerror"
+
+def sParseConnect (req : Str) : String :=
+  match Spec.NoProxy.parseConnect req with
+  | none => "none"
+  | some r =>
+    let cred := match r.basic with
+      | none => "!"
+      | some b => match B64.decode b with
+        | some bs => bytesOut bs
+        | none => "badb64"
+    s!"{sOut r.target} {sOut r.hostHdr} {cred}"
+
+def replyModelled (r : Str) : Bool :=
+  r.all (fun c => c.toNat ≤ 126 && (32 ≤ c.toNat || c == '\r' || c == '\n' || c == '\t')) &&
+    !(r.contains '+' || r.contains '_' || r.contains '-')
+
+def pWorldAddrs (s : String) : Option (Option (List Outcome)) :=
+  if s == "gai" then some none else (pOutcomes s).map some
+
+def cevOut : Model.Proxy.CEv → String
+  | .resolve h p => s!"R{sOut h}:{p}"
+  | .sock e => evOut e
+  | .send i d => s!"S{i}:{sOut d}"
+  | .tls i h => s!"T{i}:{sOut h}"
+
+/-! ### C20 -/
+
+/-- one history step `aD:pairs` / `sD:pairs`: kind, Domain (`!` none), pairs `hexn.hexv,…` -/
+def pStep (s : String) : Option (Bool × Option Str × List (Str × Str)) :=
+  let kind := s.take 1 |>.toString
+  match ((s.drop 1).toString).splitOn ":" with
+  | [d, ps] =>
+    match pOptStr d with
+    | none => none
+    | some dom =>
+      let pairs := if ps == "-" then some [] else (ps.splitOn ",").mapM fun p =>
+        match p.splitOn "." with
+        | [n, v] => match pStr n, pStr v with
+          | some n, some v => some (n, v)
+          | _, _ => none
+        | _ => none
+      pairs.map fun pairs => (kind == "s", dom, pairs)
+  | _ => none
+
+def pHist (s : String) : Option (List (Bool × Option Str × List (Str × Str))) :=
+  if s == "-" then some [] else (s.splitOn ";").mapM pStep
+
+def jarAfter (h : List (Bool × Option Str × List (Str × Str))) : Model.Cookie.Jar :=
+  h.foldl (fun jar st =>
+    let ms := Model.Cookie.morselsOf st.2.2 st.2.1
+    if st.1 then Model.Cookie.set jar ms else Model.Cookie.add jar ms) []
+
+def specHist (h : List (Bool × Option Str × List (Str × Str))) : List Spec.Cookie.Response :=
+  h.map fun st => ⟨st.2.2, st.2.1⟩
+
+def histModelled (h : List (Bool × Option Str × List (Str × Str))) : Bool :=
+  h.all fun st => (st.2.1.getD []).all (fun c => c.toNat < 128) &&
+    st.2.2.all fun nv => plainAscii nv.1 && plainAscii nv.2
+
+def pPairs (s : String) : Option (List (Str × Str)) :=
+  if s == "-" then some [] else (s.splitOn ",").mapM fun p =>
+    match p.splitOn "." with
+    | [n, v] => match pStr n, pStr v with
+      | some n, some v => some (n, v)
+      | _, _ => none
+    | _ => none
+
+def pairsOut (l : List (Str × Str)) : String :=
+  if l.isEmpty then "-" else ",".intercalate (l.map fun nv => s!"{sOut nv.1}.{sOut nv.2}")
+
+/-! ### dispatch -/
 
 def ops : List String → Option String
+  | ["m-parse-url", u] => (pStr u).map mParseUrl
+  | ["s-parse-url", u] => (pStr u).map sParseUrl
+  | ["m-bracket", s] => (pStr s).map fun s => b2s (Model.Url.bracketOk s)
+  | ["m-open-socket", t, user, outs] =>
+    match pNat t, pOpts user, pOutcomes outs with
+    | some t, some u, some o => some (mOpenSocket t u o)
+    | _, _, _ => none
+  | ["s-dial", t, user, outs] =>
+    match pNat t, pOpts user, pOutcomes outs with
+    | some t, some u, some o => some (sDial t u o)
+    | _, _, _ => none
+  | ["m-dispatcher", pt, custom, ssl] =>
+    match pBool custom, pBool ssl with
+    | some c, some s =>
+      let pt := if pt == "!" then some none else (pNat pt).map some
+      pt.map fun pt => dispOut (Model.OpenSocket.createDispatcher pt c s)
+    | _, _ => none
+  | ["m-no-proxy", h, l, e] =>
+    match pStr h, pList l, pEnv e with
+    | some h, some l, some e => some (mNoProxy h l e)
+    | _, _, _ => none
+  | ["s-no-proxy", h, l, e] =>
+    match pStr h, pList l, pEnv e with
+    | some h, some l, some e => some (sNoProxy h l e)
+    | _, _, _ => none
+  | ["m-proxy-info", h, sec, oh, op, oa, onp, e] =>
+    match pStr h, pBool sec, pStr oh, pNat op, pAuth oa, pList onp, pEnv e with
+    | some h, some sec, some oh, some op, some oa, some onp, some e => some (mProxyInfo h sec oh op oa onp e)
+    | _, _, _, _, _, _, _ => none
+  | ["s-decision", h, sec, oh, op, oa, onp, e] =>
+    match pStr h, pBool sec, pStr oh, pNat op, pAuth oa, pList onp, pEnv e with
+    | some h, some sec, some oh, some op, some oa, some onp, some e => some (sDecision h sec oh op oa onp e)
+    | _, _, _, _, _, _, _ => none
+  | ["m-env-proxy", v] =>
+    (pStr v).map fun v =>
+      if !(v.all urlAlphabet && !v.contains '%') then "unmodelled"
+      else exnOut choiceOut (Model.Proxy.envProxyParse Model.Url.bracketOk v)
+  | ["m-tunnel-req", h, p, a] =>
+    match pStr h, pNat p, pAuth a with
+    | some h, some p, some a =>
+      if !(plainAscii h && (match a with | some (u, pw) => u.all (·.toNat < 128) && pw.all (·.toNat < 128) | none => true))
+      then some "unmodelled"
+      else some (sOut (Model.Proxy.tunnelRequest h p a))
+    | _, _, _ => none
+  | ["s-parse-connect", r] => (pStr r).map sParseConnect
+  | ["s-reply-status", r] =>
+    (pStr r).map fun r => match Spec.NoProxy.replyStatus r with
+      | some n => toString n
+      | none => "!"
+  | ["m-tunnel", r] =>
+    (pStr r).map fun r =>
+      if !replyModelled r then "unmodelled"
+      else match Model.Proxy.tunnel r with
+        | .ok () => "ok"
+        | .error e => e.toStr
+  | ["m-read-status", r] =>
+    (pStr r).map fun r =>
+      if !replyModelled r then "unmodelled"
+      else exnOut (fun s => match s with | some n => toString n | none => "!") (Model.Proxy.readStatus r)
+  | ["m-connect", url, t, user, oh, op, oa, onp, e, addrs, reply] =>
+    match pStr url, pNat t, pOpts user, pStr oh, pNat op, pAuth oa, pList onp with
+    | some url, some t, some user, some oh, some op, some oa, some onp =>
+      match pEnv e, pWorldAddrs addrs, pStr reply with
+      | some e, some addrs, some reply =>
+        let p := Model.Proxy.proxyInfo oh op oa onp
+        let modelled := url.all urlAlphabet && envModelled e && replyModelled reply &&
+          (match Model.Url.parseUrl Model.Url.bracketOk url with
+           | .ok tg => npModelled tg.host (Model.NoProxy.effectiveList p.noProxy e) &&
+               proxyEnvModelled tg.secure e
+           | .error _ => true)
+        if !modelled then some "unmodelled"
+        else
+          let (r, tr) := Model.Proxy.connect Model.Url.bracketOk url t user p e ⟨addrs, reply⟩
+          let rs := match r with
+            | .ok (i, tg) => s!"ok:{i}:{sOut tg.host}:{tg.port}:{sOut tg.resource}"
+            | .error ex => ex.toStr
+          some (rs ++ " " ++ evsOut (tr.map cevOut))
+      | _, _, _ => none
+    | _, _, _, _, _, _, _ => none
+  | ["m-cookie-header", hist, host, client] =>
+    match pHist hist, pStr host, pStr client with
+    | some h, some host, some client =>
+      if !(histModelled h && host.all (·.toNat < 128)) then some "unmodelled"
+      else some (sOut (Model.Cookie.cookieHeader (jarAfter h) host client))
+    | _, _, _ => none
+  | ["m-cookie-pairs", hist, host] =>
+    match pHist hist, pStr host with
+    | some h, some host =>
+      if !(histModelled h && host.all (·.toNat < 128)) then some "unmodelled"
+      else some (pairsOut (Model.Cookie.getPairs (jarAfter h) host))
+    | _, _ => none
+  | ["s-cookie-admissible", hist, host, out] =>
+    match pHist hist, pStr host, pPairs out with
+    | some h, some host, some out => some (b2s (Spec.Cookie.admissibleB (specHist h) host out))
+    | _, _, _ => none
+  | ["s-cookie-covering", hist, host] =>
+    match pHist hist, pStr host with
+    | some h, some host => some (pairsOut (Spec.Cookie.covering (Spec.Cookie.storeOf (specHist h)) host))
+    | _, _ => none
+  | ["s-cookie-header", pairs, client] =>
+    match pPairs pairs, pStr client with
+    | some p, some c => some (sOut (Spec.Cookie.header p c))
+    | _, _ => none
+  | ["m-merge-set-cookie", vals] =>
+    (pList vals).map fun vs =>
+      match Model.Cookie.mergeSetCookie vs with
+      | some v => sOut v
+      | none => "!"
   | _ => none
 
 end WS.Driver.H1
